@@ -57,6 +57,8 @@ MUTANTS: Dict[str, List[M]] = {
         ("error exits with status 1", "_core.py", "        self.exit(2)", "        self.exit(1)", "C03.R3"),
         ("env list loading unguarded", "_core.py", "                    try:\n                        list_env_val = load_value(env_val)\n                        env_val = list_env_val if isinstance(list_env_val, list) else [env_val]\n                    except get_loader_exceptions():\n                        env_val = [env_val]", "                    list_env_val = load_value(env_val)\n                    env_val = list_env_val if isinstance(list_env_val, list) else [env_val]", "C03.R5"),
         ("argparse error not converted", "_core.py", "        except argparse.ArgumentError as ex:\n            self.error(str(ex), ex)\n\n        return namespace, args", "        except argparse.ArgumentError as ex:\n            raise ex\n\n        return namespace, args", "C03.R2"),
+        ("yaml_load no longer converts constructor ValueError", "_loaders_dumpers.py", "    except ValueError as ex:  # raised by the constructors", "    except KeyError as ex:  # raised by the constructors", "C03.R5"),
+        ("subcommand parser does not inherit exit_on_error", "_actions.py", "        parser.exit_on_error = self.parent_parser.exit_on_error\n", "", "C03.R3"),
         ("ActionTypeHint no longer converts ValueError", "_typehints.py", "            except (TypeError, ValueError) as ex:\n                if self._is_valid_string(val):", "            except TypeError as ex:\n                if self._is_valid_string(val):", "C03.R4"),
     ],
     "C04": [
@@ -146,6 +148,7 @@ MUTANTS: Dict[str, List[M]] = {
         ("dump inside the write handle", "_core.py", '            content = self.dump(cfg, **dump_kwargs)  # type: ignore[arg-type]\n            with open(path_fc.absolute, "w") as f:\n                f.write(content)', '            with open(path_fc.absolute, "w") as f:\n                f.write(self.dump(cfg, **dump_kwargs))', "C18.a"),
         ("sub-file written before the main dump", "_core.py", "                            outputs.append((val_path, val_str))\n", '                            with open(val_path.absolute, "w") as f:\n                                f.write(val_str)\n', "C18.a2"),
         ("sub-file overwrite check dropped", "_core.py", "                            check_overwrite(val_path)\n                            val_out = strip_meta(val)", "                            val_out = strip_meta(val)", "C18.b"),
+        ("fsspec target probed by opening it for writing", "_core.py", 'path_sw = Path(path, mode="s")', 'path_sw = Path(path, mode="sw")', "C18.c"),
         ("check_overwrite ignores existing files", "_core.py", "            if not overwrite and os.path.isfile(path.absolute):\n                raise ValueError", "            if not overwrite and os.path.isdir(path.absolute):\n                raise ValueError", "C18.b"),
     ],
     "C19": [
